@@ -103,6 +103,8 @@ Membs(s, i, d, acc) ==
 \* The first value of s after optional whitespace.
 Value(s) == Val(s, SkipWS(s, 1), 0)
 
+AllWSAfter(s, end) == \A i \in (end + 1)..Len(s) : IsWS(s[i])
+
 \* last-duplicate-wins lookup in a member list
 ObjKeys(ms) == {ms[i][1] : i \in 1..Len(ms)}
 ObjLookup(ms, key) == ms[CHOOSE i \in 1..Len(ms) : ms[i][1] = key /\ \A j \in (i+1)..Len(ms) : ms[j][1] # key][2]
